@@ -334,7 +334,7 @@ func randLeaf(r *rand.Rand, unsync bool) *core.Entry {
 }
 
 func randTree(r *rand.Rand, depth int, unsync bool) *core.Entry {
-	if depth == 0 || r.Intn(3) == 0 {
+	if depth <= 0 || r.Intn(3) == 0 {
 		return randLeaf(r, unsync)
 	}
 	c := map[string]*core.Entry{}
@@ -359,7 +359,8 @@ func mutate(r *rand.Rand, e *core.Entry, depth int, unsync bool) *core.Entry {
 		}
 	}
 	out := map[string]*core.Entry{}
-	for n, ch := range e.Contents {
+	for _, n := range vtree.SortedNames(e) {
+		ch := e.Contents[n]
 		switch r.Intn(6) {
 		case 0: // delete
 		case 1:
